@@ -205,6 +205,9 @@ pub fn judge_image(ctx: &Ctx, image: &Shadow, lo: usize, hi: usize, what: &str, 
 		},
 	}
 	let j = r?;
+	if std::env::var("PDBMC_TRACE_IMAGES").is_ok() {
+		eprintln!("image: {} -> S_{}", what, j);
+	}
 	*stats.recovered_to.entry(format!("S{}of{}", j, hi)).or_insert(0) += 1;
 	// crash during recovery itself
 	if nested {
@@ -306,6 +309,12 @@ pub fn enumerate(ctx: &Ctx, ops: &[Op], from: usize, lo_before: usize, lo_after_
 			if ctx.crash.power_loss {
 				power_loss(ctx, &vol, &dur, lo, hi, &w, stats)?;
 			}
+		} else if i >= from && ctx.crash.power_loss && matches!(op, Op::Sync(_) | Op::Msync(..)) {
+			// the instant before a sync is where the most is at stake: everything written since the last mutating
+			// operation's crash point is still volatile (a process crash here gives the image already judged)
+			stats.crash_points += 1;
+			let w = format!("{}, crash before op #{} ({})", what, i - from, op.short());
+			power_loss(ctx, &vol, &dur, lo, hi, &w, stats)?;
 		}
 		match op {
 			Op::Msync(p, o, l) => crate::crash::msync_range(&vol, &mut dur, p, *o, *l),
